@@ -175,6 +175,13 @@ def resolve(world, cur, arg, record=None):
         if tag == "$key":
             keys = _stable(coll.keys(), coll) if coll is not None and hasattr(coll, "keys") else []
             return keys[arg[2] % len(keys)] if keys else KEYS[arg[2] % len(KEYS)]
+        if tag == "$alias":
+            # ONE element of the container (a private copy of it), held n times: [e, e, e] / {"a": e, "b": e}
+            src_items = list(coll.values()) if isinstance(coll, dict) else (list(coll) if coll is not None else [])
+            if not src_items:
+                return {} if isinstance(coll, dict) else []
+            e = copy.deepcopy(src_items[0])
+            return {k: e for k in KEYS[: arg[2]]} if isinstance(coll, dict) else [e] * arg[2]
         if tag == "$item":
             items = list(coll.values()) if isinstance(coll, dict) else (_stable(coll, coll) if coll is not None else [])
             if not items:
